@@ -85,6 +85,10 @@ pub fn curated() -> Vec<Scen> {
             vec![Op::WaitAbandoned(4), ff(2, A), link(2, A, 1, A), skip(3), notar(1, A), skip(4), skip(5), skip(6), skip(7)],
         ),
         s(
+            "children-of-an-uncertified-parent-on-both-sides-of-the-watermark",
+            vec![ff(2, A), ff(3, A), link(2, X, 1, A), link(4, X, 1, A), ff(1, A), link(2, A, 1, A), link(3, A, 2, A)],
+        ),
+        s(
             "two-windows-skip-chain",
             vec![skip(1), skip(2), skip(3), skip(4), skip(5), skip(6), skip(7), notar(2, A), Op::Wait(8), Op::Wait(4)],
         ),
